@@ -12,7 +12,7 @@ the update transaction order, ``_prod`` fwd/rev and the fwd/rev mirror of the ma
 import ast
 
 from .. import astx, cfg as cfgm
-from ..core import AnalysisError
+from ..core import AnalysisError, Func
 from ..engine import rule, describe, selftest, Mutant, Twin
 
 MAT = 'openmdao/matrices/matrix.py'
@@ -194,6 +194,104 @@ class FA:
                 acc.pop()
         rec(g.entry, [], {g.entry})
         return out
+
+
+def _set_parents(node, parent=None):
+    node._parent = parent
+    for ch in ast.iter_child_nodes(node):
+        _set_parents(ch, node)
+
+
+def inline_helpers(repo, rel, cls, fn, depth=0):
+    """Func whose body has every statement `self.<helper>(args)` replaced by the body of the helper (resolved
+    through the MRO of cls), parameters substituted by the argument expressions and helper locals renamed.
+    Helpers with early returns, generators, parameter re-binding or starred arguments are left as calls."""
+    if fn is None or depth > 2:
+        return fn
+    changed = [False]
+
+    def expand_body(body):
+        out_ = []
+        for st in body:
+            new = None
+            if isinstance(st, ast.Expr) and isinstance(st.value, ast.Call) and \
+                    astx.path(astx.receiver(st.value)) == 'self' and not any(isinstance(a, ast.Starred) for a in st.value.args):
+                h = repo.lookup(rel, cls, astx.callee_attr(st.value))
+                if h is not None and h.node is not fn.node:
+                    new = inlined(h, st.value)
+            if new is not None:
+                changed[0] = True
+                out_.extend(new)
+                continue
+            st2 = clone(st)
+            for fld in ('body', 'orelse', 'finalbody'):
+                sub = getattr(st, fld, None)
+                if isinstance(sub, list) and sub and isinstance(sub[0], ast.stmt):
+                    setattr(st2, fld, expand_body(sub))
+            if isinstance(st, ast.Try):
+                for h2, h1 in zip(st2.handlers, st.handlers):
+                    h2.body = expand_body(h1.body)
+            out_.append(st2)
+        return out_
+
+    def inlined(h, call):
+        hn = inline_helpers(repo, rel, cls, h, depth + 1).node
+        a = hn.args
+        if a.vararg or a.kwarg or a.kwonlyargs or not a.args:
+            return None
+        params = [x.arg for x in a.posonlyargs + a.args]
+        if 'staticmethod' not in h.decorators():
+            params = params[1:]
+        if len(call.args) > len(params):
+            return None
+        amap = dict(zip(params, call.args))
+        for k in call.keywords:
+            if k.arg is None or k.arg not in params:
+                return None
+            amap[k.arg] = k.value
+        ndef = len(a.defaults)
+        for prm, dflt in zip(params[len(params) - ndef:] if ndef else [], a.defaults):
+            amap.setdefault(prm, dflt)
+        if set(params) - set(amap):
+            return None
+        body = astx.strip_doc(hn.body)
+        if body and isinstance(body[-1], ast.Return) and (body[-1].value is None or (
+                isinstance(body[-1].value, ast.Constant) and body[-1].value.value is None)):
+            body = body[:-1]
+        locals_ = set()
+        for x in ast.walk(ast.Module(body=body, type_ignores=[])):
+            if isinstance(x, (ast.Return, ast.Yield, ast.YieldFrom, ast.FunctionDef, ast.Lambda, ast.Global, ast.Nonlocal)):
+                return None
+            if isinstance(x, ast.Name) and isinstance(x.ctx, (ast.Store, ast.Del)):
+                if x.id in amap:
+                    return None
+                locals_.add(x.id)
+
+        class T(ast.NodeTransformer):
+            def visit_Name(self, node):
+                if node.id in amap:
+                    return clone(amap[node.id])
+                if node.id in locals_:
+                    return ast.copy_location(ast.Name(id=node.id + '__inl', ctx=node.ctx), node)
+                return node
+        return [T().visit(clone(x)) for x in body] or [ast.copy_location(ast.Pass(), call)]
+
+    new_body = expand_body(fn.node.body)
+    if not changed[0]:
+        return fn
+    node = clone(fn.node)
+    node.body = new_body
+    ast.fix_missing_locations(node)
+    _set_parents(node, getattr(fn.node, '_parent', None))
+    return Func(fn.module, fn.qualname, node, fn.cls)
+
+
+def method(repo, rel, cls, name):
+    """The method a class resolves `name` to, with self-helper calls inlined."""
+    f = repo.lookup(rel, cls, name)
+    if f is None:
+        raise AnalysisError(f'{cls}.{name} not found')
+    return inline_helpers(repo, rel, cls, f)
 
 
 def path_expand(fa, p, e, upto, depth=0):
@@ -563,7 +661,7 @@ def accum(repo, out):
     """Update protocol: private-slice assign, or exactly-once accumulate through the shared index map
     into a buffer zeroed by _pre_update, unbuffered (np.add.at) whenever duplicates are flagged."""
     # ---- COOMatrix: assign into the private slice of the COO data
-    fn = repo.lookup(COO, 'COOMatrix', '_update_from_submat')
+    fn = method(repo, COO, 'COOMatrix', '_update_from_submat')
     fa = FA(fn)
     subj = subj_param(fa)
     evs = update_events(fa)
@@ -594,7 +692,7 @@ def accum(repo, out):
     # ---- CSC / CSR: accumulate
     for rel, cls, _ in COMPRESSED:
         cb = CompressedBuild(repo, rel, cls)
-        fn = repo.lookup(rel, cls, '_update_from_submat')
+        fn = method(repo, rel, cls, '_update_from_submat')
         fa = FA(fn)
         subj = subj_param(fa)
         evs = update_events(fa)
@@ -666,7 +764,7 @@ def accum(repo, out):
         if once_ok and not bad_here:
             out.ok(fn, fn.node, f'{cls}: exactly one accumulate per path; `+=` only when no within-subjac duplicates')
         # zeroing in the resolved _pre_update
-        pre = repo.lookup(rel, cls, '_pre_update')
+        pre = method(repo, rel, cls, '_pre_update')
         pfa = FA(pre)
         for buf in bufs:
             zs = [n for n in pfa.g.nodes if _zeroes(pfa, n, buf)]
@@ -799,7 +897,7 @@ def _dense_accum(repo, out):
             out.unsure(b, iff, 'unrecognised assignments to self._coo in the has_repeated branches')
 
     # 2. _update_from_submat: direct writes only when self._coo is None
-    fn = repo.lookup(DENSE, cls, '_update_from_submat')
+    fn = method(repo, DENSE, cls, '_update_from_submat')
     fa = FA(fn)
     evs = update_events(fa)
 
@@ -850,7 +948,7 @@ def _dense_accum(repo, out):
         out.ok(fn, fn.node, 'DenseMatrix: direct writes only under `self._coo is None`, COO-slice writes otherwise')
 
     # 3. _post_update sums the COO form into the dense array
-    po = repo.lookup(DENSE, cls, '_post_update')
+    po = method(repo, DENSE, cls, '_post_update')
     pfa = FA(po)
 
     def coo_none2(x, n):
@@ -1343,9 +1441,7 @@ def slices(repo, out):
 # =========================================================================== C11.factor-once / factor-region
 def _factor_paths(repo, rel, cls):
     """Per path of _update_from_submat: (flags, events in order)."""
-    fn = repo.lookup(rel, cls, '_update_from_submat')
-    if fn is None:
-        raise AnalysisError(f'{cls}._update_from_submat not found')
+    fn = method(repo, rel, cls, '_update_from_submat')
     fa = FA(fn)
     evs = update_events(fa)
     res = []
@@ -3298,7 +3394,43 @@ selftest(
     Mutant('mask-cache-keyed-by-other-vector-state', JAC, 'self._mask_caches[(d_inputs._names, mode)]',
            'self._mask_caches[(d_inputs._kind, mode)]', 'C11.mask-cache', nth='all'),
 
+    # ---- obligations inside an extracted helper (second robustness round)
+    Mutant('helper-shape-dense-coo-factor-dropped', DENSE, '        else:\n            self._coo.data[self._coo_slices[subjac.key]] = subjac.get_as_coo_data(randgen)\n            if subjac.factor is not None:\n                self._coo.data[self._coo_slices[subjac.key]] *= subjac.factor\n',
+           '        else:\n            self._update_coo_from_submat(subjac, randgen)\n\n    def _update_coo_from_submat(self, subjac, randgen):\n        self._coo.data[self._coo_slices[subjac.key]] = subjac.get_as_coo_data(randgen)\n',
+           'C11.factor-once'),
+    Mutant('helper-shape-dense-coo-branch-stores-nothing', DENSE, '        else:\n            self._coo.data[self._coo_slices[subjac.key]] = subjac.get_as_coo_data(randgen)\n            if subjac.factor is not None:\n                self._coo.data[self._coo_slices[subjac.key]] *= subjac.factor\n',
+           '        else:\n            self._update_coo_from_submat(subjac, randgen)\n\n    def _update_coo_from_submat(self, subjac, randgen):\n        if subjac.factor is not None:\n            self._coo.data[self._coo_slices[subjac.key]] *= subjac.factor\n',
+           'C11.accum'),
+    Mutant('helper-shape-csc-buffered-add-with-duplicates', CSC,
+           '        if self._has_within_subjac_duplicates[subjac.key]:\n'
+           '            # Rare case: within-subjac duplicate (row, col) entries require unbuffered add\n'
+           '            np.add.at(self._matrix.data, csc_indices, data)\n'
+           '        else:\n'
+           '            self._matrix.data[csc_indices] += data\n',
+           '        self._accumulate(values=data, where=csc_indices, dups=self._has_within_subjac_duplicates[subjac.key])\n\n'
+           '    def _accumulate(self, where, values, dups=False):\n'
+           '        target = self._matrix.data\n'
+           '        if not dups:\n'
+           '            np.add.at(target, where, values)\n'
+           '        else:\n'
+           '            target[where] += values\n', 'C11.accum'),
+
     # ---- twins
+    Twin('twin-dense-coo-branch-in-helper', DENSE, '        else:\n            self._coo.data[self._coo_slices[subjac.key]] = subjac.get_as_coo_data(randgen)\n            if subjac.factor is not None:\n                self._coo.data[self._coo_slices[subjac.key]] *= subjac.factor\n',
+         '        else:\n            self._update_coo_from_submat(subjac, randgen)\n\n    def _update_coo_from_submat(self, subjac, randgen):\n        self._coo.data[self._coo_slices[subjac.key]] = subjac.get_as_coo_data(randgen)\n        if subjac.factor is not None:\n            self._coo.data[self._coo_slices[subjac.key]] *= subjac.factor\n'),
+    Twin('twin-csc-accumulate-in-helper-keyword-args', CSC,
+         '        if self._has_within_subjac_duplicates[subjac.key]:\n'
+         '            # Rare case: within-subjac duplicate (row, col) entries require unbuffered add\n'
+         '            np.add.at(self._matrix.data, csc_indices, data)\n'
+         '        else:\n'
+         '            self._matrix.data[csc_indices] += data\n',
+         '        self._accumulate(values=data, where=csc_indices, dups=self._has_within_subjac_duplicates[subjac.key])\n\n'
+         '    def _accumulate(self, where, values, dups=False):\n'
+         '        target = self._matrix.data\n'
+         '        if dups:\n'
+         '            np.add.at(target, where, values)\n'
+         '        else:\n'
+         '            target[where] += values\n'),
     Twin('twin-mask-cache-key-names-only', JAC, 'self._mask_caches[(d_inputs._names, mode)]',
          'self._mask_caches[d_inputs._names]', nth='all'),
     Twin('twin-mask-cache-key-temporary-if-form', JAC,
